@@ -45,9 +45,12 @@ theorem variables_are_answered_one_by_one (op : List Int → Bool → Option Str
 
 /-- the answer does not depend on the order in which the parameter groups are given: for a line
 whose parameters form well-delimited groups of distinct kinds, any permutation of the groups is
-either rejected as well or yields the same parameter record (hence the same reply) -/
+either rejected as well or yields the same parameter record (hence the same reply).
+`WellDelimited total` includes, for assumptions / variables, that the group is not one that
+`get_numbers` rejects as "no value supplied" at the end of a line (e.g. `a 0`, which is accepted with
+an empty list before another group and rejected at the end: for such a group the order matters) -/
 theorem parameter_order_is_irrelevant (total : Nat) (gs gs' : List Group) (hp : gs.Perm gs')
-    (hk : (gs.map Group.kind).Nodup) (hw : ∀ g ∈ gs, g.WellDelimited) :
+    (hk : (gs.map Group.kind).Nodup) (hw : ∀ g ∈ gs, g.WellDelimited total) :
     ParamsAgree (paramLoop total (renderGroups gs).length.succ (renderGroups gs) {})
                 (paramLoop total (renderGroups gs').length.succ (renderGroups gs') {}) :=
   paramLoop_perm total gs gs' hp hk hw
